@@ -87,7 +87,17 @@ json.dump(out, sys.stdout)
 '''
 
 
+_COMPILER_CACHE: dict = {}
+
+
 def compiler_output(repo: Repo, corpus_path: str | None = None) -> dict:
+    key = (str(repo.root), repo.digest(), corpus_path)
+    if key not in _COMPILER_CACHE:
+        _COMPILER_CACHE[key] = _compiler_output(repo, corpus_path)
+    return _COMPILER_CACHE[key]
+
+
+def _compiler_output(repo: Repo, corpus_path: str | None = None) -> dict:
     env = dict(os.environ, PYTHONPATH=str(repo.root), PYTHONDONTWRITEBYTECODE="1")
     argv = [sys.executable, "-c", HELPER, str(repo.root)] + ([corpus_path] if corpus_path else [])
     p = subprocess.run(argv, capture_output=True, text=True, cwd=str(repo.root), env=env, timeout=300)
@@ -147,7 +157,147 @@ class Disagreement(Exception):
     """The generated code is understood and is not what the definition says."""
 
 
+def helper_denotation(f: ast.FunctionDef, n_var: int = 0):
+    """What a module-level helper of the compiler computes from its arguments, as a linear combination of them: every path is
+    run with symbolic arguments, `X is zero` tests split the paths (on the true side X contributes nothing), every other test
+    is explored both ways, and all paths must agree with the generic one once their zero-facts are applied.  In-place updates
+    of a local name (`total += term`) count as the value they produce: aliasing is E4's business, not the translation's.
+    -> (number of parameters, {parameter position or 1: coefficient}); AnalysisError when the body is outside this language."""
+    params = [a.arg for a in f.args.args]
+    if f.args.kwonlyargs or f.args.kwarg or f.args.posonlyargs or (f.args.vararg and params):
+        raise AnalysisError(RULE, f"helper {f.name}: signature not understood")
+    vararg = f.args.vararg.arg if f.args.vararg else None
+    var_items = list(range(n_var)) if vararg else []
+    n_par = len(params) if not vararg else n_var
+    env_start = {p_: {("param", i): Fr(1)} for i, p_ in enumerate(params)}
+    results = []  # (frozenset of parameters known to be zero, value)
+
+    def ev(e, env):
+        if isinstance(e, ast.Name):
+            if e.id == "zero":
+                return {}
+            if e.id in env:
+                return dict(env[e.id])
+            raise AnalysisError(RULE, f"helper {f.name}: free name `{e.id}`")
+        if isinstance(e, ast.BinOp) and isinstance(e.op, (ast.Add, ast.Sub)):
+            r = ev(e.right, env)
+            return lc_add(ev(e.left, env), r if isinstance(e.op, ast.Add) else lc_scale(r, Fr(-1)))
+        if isinstance(e, ast.UnaryOp) and isinstance(e.op, ast.USub):
+            return lc_scale(ev(e.operand, env), Fr(-1))
+        if isinstance(e, ast.Call) and call_name(e) == "_zero_sum" and not e.keywords and not any(isinstance(a, ast.Starred) for a in e.args):
+            return lc_add(*(ev(a, env) for a in e.args))
+        if isinstance(e, ast.IfExp) and zero_test(e.test) is not None and zero_test(e.test)[0] in env:
+            name, pol = zero_test(e.test)
+            z_arm, nz_arm = (e.body, e.orelse) if pol else (e.orelse, e.body)
+            cur = env[name]
+            if cur == {}:
+                return ev(z_arm, env)
+            nz = ev(nz_arm, env)
+            if len(cur) == 1 and next(iter(cur))[0] == "param" and cur == {next(iter(cur)): Fr(1)}:
+                # undecided whether this argument is the sentinel: both arms must agree once it contributes nothing
+                z = ev(z_arm, {**env, name: {}})
+                k_ = next(iter(cur))
+                if z != {kk: c for kk, c in nz.items() if kk != k_}:
+                    raise AnalysisError(RULE, f"helper {f.name}: `{norm(e)[:60]}` gives different values for a zero and a non-zero argument")
+            return nz
+        raise AnalysisError(RULE, f"helper {f.name}: expression `{norm(e)[:60]}` not understood")
+
+    def zero_test(t):
+        """-> (parameter, polarity) for `P is zero` / `P is not zero` on an unmodified parameter"""
+        pol = True
+        while isinstance(t, ast.UnaryOp) and isinstance(t.op, ast.Not):
+            t, pol = t.operand, not pol
+        if isinstance(t, ast.Compare) and len(t.ops) == 1 and isinstance(t.ops[0], (ast.Is, ast.IsNot)) and norm(t.comparators[0]) == "zero" \
+                and isinstance(t.left, ast.Name):
+            return t.left.id, pol == isinstance(t.ops[0], ast.Is)
+        return None
+
+    budget = [400]
+
+    def run(stmts, env, zeros, k_end, k_continue=None):
+        """continuation style: `k_end(env, zeros)` when the statements are exhausted, `k_continue(env, zeros)` on `continue`"""
+        budget[0] -= 1
+        if budget[0] < 0:
+            raise AnalysisError(RULE, f"helper {f.name}: too many paths")
+        if not stmts:
+            return k_end(env, zeros)
+        s, rest = stmts[0], list(stmts[1:])
+        if isinstance(s, ast.Expr) and isinstance(s.value, ast.Constant):
+            return run(rest, env, zeros, k_end, k_continue)
+        if isinstance(s, ast.Return):
+            if s.value is None:
+                raise AnalysisError(RULE, f"helper {f.name}: returns nothing on some path")
+            results.append((frozenset(zeros), ev(s.value, env)))
+            return
+        if isinstance(s, ast.Continue) and k_continue is not None:
+            return k_continue(env, zeros)
+        if isinstance(s, ast.Assign) and len(s.targets) == 1 and isinstance(s.targets[0], ast.Name):
+            return run(rest, {**env, s.targets[0].id: ev(s.value, env)}, zeros, k_end, k_continue)
+        if isinstance(s, ast.AugAssign) and isinstance(s.target, ast.Name) and isinstance(s.op, (ast.Add, ast.Sub)):
+            r = ev(s.value, env)
+            new = lc_add(ev(s.target, env), r if isinstance(s.op, ast.Add) else lc_scale(r, Fr(-1)))
+            return run(rest, {**env, s.target.id: new}, zeros, k_end, k_continue)
+        if isinstance(s, ast.For) and not s.orelse and isinstance(s.target, ast.Name) and isinstance(s.iter, ast.Name) and s.iter.id == vararg:
+            items = list(var_items)
+
+            def loop(i, env_, zeros_):
+                if i == len(items):
+                    return run(rest, env_, zeros_, k_end, k_continue)
+                nxt = lambda e_, z_: loop(i + 1, e_, z_)
+                return run(list(s.body), {**env_, s.target.id: {("param", items[i]): Fr(1)}, "__item__" + s.target.id: items[i]}, zeros_, nxt, nxt)
+            return loop(0, env, zeros)
+        if isinstance(s, ast.If):
+            zt = zero_test(s.test)
+            cont = lambda body: run(list(body) + rest, env, zeros, k_end, k_continue)
+            if zt is not None and env.get(zt[0]) is not None and len(env[zt[0]]) == 1 and next(iter(env[zt[0]]))[0] == "param" \
+                    and env[zt[0]] == {next(iter(env[zt[0]])): Fr(1)}:
+                name, pol = zt
+                pidx = next(iter(env[name]))[1]
+                z_side, nz_side = (s.body, s.orelse) if pol else (s.orelse, s.body)
+                if ("NZ", pidx) in zeros:
+                    return cont(nz_side)
+                run(list(z_side) + rest, {**env, name: {}}, zeros | {("P", pidx)}, k_end, k_continue)
+                run(list(nz_side) + rest, env, zeros | {("NZ", pidx)}, k_end, k_continue)
+                return
+            if zt is not None and env.get(zt[0]) == {}:
+                # a local that is (still) the zero sentinel
+                return cont(s.body if zt[1] else s.orelse)
+            if zt is not None and env.get(zt[0]):
+                # a local holding a genuine (non-sentinel) combination: on the paths explored here its terms are not zero
+                return cont(s.orelse if zt[1] else s.body)
+            cont(s.body)
+            cont(s.orelse)
+            return
+        raise AnalysisError(RULE, f"helper {f.name}: statement `{norm(s)[:60]}` not understood")
+
+    def fell_off(env, zeros):
+        raise AnalysisError(RULE, f"helper {f.name}: a path ends without return")
+
+    run(list(f.body), env_start, frozenset(), fell_off)
+    generic = [v for z, v in results if not any(t_ == "P" for t_, _i in z)]
+    if not generic or any(v != generic[0] for v in generic):
+        raise AnalysisError(RULE, f"helper {f.name}: its paths do not compute one linear combination of the arguments")
+    den = generic[0]
+    for z, v in results:
+        want = {k: c for k, c in den.items() if not (k[0] == "param" and ("P", k[1]) in z)}
+        if v != want:
+            raise AnalysisError(RULE, f"helper {f.name}: the path on which arguments {sorted(i for t_, i in z if t_ == 'P')} are the zero sentinel "
+                                      "returns something else than the general path")
+    if any(k[0] != "param" for k in den):
+        raise AnalysisError(RULE, f"helper {f.name}: denotation outside the arguments")
+    return n_par, {k[1]: c for k, c in den.items()}
+
+
+def compiler_helpers(repo: Repo) -> dict:
+    """Module-level functions of algorithm_parsing.py that the exec scope of the generated code binds under their own name."""
+    entries = exec_scope_table(repo, RULE)[0]
+    defs = {n.name: n for n in repo.trees["algorithm_parsing"].body if isinstance(n, ast.FunctionDef)}
+    return {k: defs[k] for k, v in entries.items() if isinstance(v, ast.Name) and v.id == k and k in defs and k not in ("_zero_sum", "_safe_divide")}
+
+
 class GenInterp:
+    helpers: dict = {}  # module-level functions of algorithm_parsing.py by name (set by the rules that use the interpreter)
+
     def __init__(self, cls: str, offdiag_given: bool, flags: dict, where: str):
         self.cls, self.og, self.flags, self.where = cls, offdiag_given, flags, where
         self.deletes = []
@@ -234,6 +384,13 @@ class GenInterp:
                         raise AnalysisError(RULE, f"{self.where}: Dagger of a non-reference")
                     out[("ref", k[1], not k[2], k[3])] = c
                 return out
+            if name in self.helpers and not e.keywords and not any(isinstance(a, ast.Starred) for a in e.args):
+                # a helper of the compiler itself: what it computes is read from its definition
+                n_par, den = helper_denotation(self.helpers[name])
+                if len(e.args) != n_par:
+                    raise Disagreement(f"helper {name} takes {n_par} arguments, the generated code passes {len(e.args)}")
+                vals = [self.ev(a) for a in e.args]
+                return lc_add(*(lc_scale(vals[i], c) for i, c in den.items()))
             if name is not None and "." not in name:
                 # scope function: f(arg, index) -- index must be passed exactly once, last
                 if not e.args or norm(e.args[-1]) != "index" or e.keywords:
@@ -270,6 +427,18 @@ class GenInterp:
                 continue
             if isinstance(s, ast.Assign) and norm(s.targets[0]) == "result":
                 self.result = self.ev(s.value)
+                continue
+            if isinstance(s, ast.Pass):
+                continue
+            if isinstance(s, ast.Try) and not s.handlers and not s.orelse:
+                # value semantics on the path without exception: the body, then the finally block (a `return` there wins);
+                # what the construct does to an exception in flight is E9.exceptions' business
+                r = self._block(s.body)
+                r2 = self._block(s.finalbody)
+                if r2 is not None:
+                    return r2
+                if r is not None:
+                    return r
                 continue
             if isinstance(s, ast.Expr) and isinstance(s.value, ast.Call) and call_name(s.value) == "del_":
                 a = s.value.args
@@ -347,8 +516,14 @@ def data_table(repo: Repo):
     comprehension spread into the literal or filled by nested loops after it:
     -> (table assignment, {constant key: value AST}, [(key f-string, value AST, [(target AST, iterable AST), ...])])."""
     sc = repo.find("algorithm_parsing::series_computation", RULE)
-    tables = [n for n in ast.walk(sc) if isinstance(n, ast.Assign) and isinstance(n.value, ast.Dict) and isinstance(n.targets[0], ast.Name)
-              and any(isinstance(k, ast.Constant) and k.value == "zero_data" for k in n.value.keys if k is not None)]
+    find_tables = lambda f_: [n for n in ast.walk(f_) if isinstance(n, ast.Assign) and isinstance(n.value, ast.Dict) and isinstance(n.targets[0], ast.Name)
+                              and any(isinstance(k, ast.Constant) and k.value == "zero_data" for k in n.value.keys if k is not None)]
+    tables = find_tables(sc)
+    if not tables:
+        # the table may be built by an extracted helper: look at the function with such helpers seen through
+        sc = repo.find_expanded("algorithm_parsing::series_computation", RULE)
+        tables = find_tables(sc)
+    data_table.host = sc
     if len(tables) != 1:
         raise AnalysisError(RULE, "series_computation: `data` table (with a `zero_data` entry) not found")
     tab = tables[0]
@@ -423,6 +598,7 @@ def data_key_patterns(repo: Repo):
 
 
 def rule_translation(rep: Report, repo: Repo, which=("main", "nonhermitian", "doc_example")):
+    GenInterp.helpers = compiler_helpers(repo)
     out = compiler_output(repo)
     programs = 0
     checked = 0
@@ -590,9 +766,46 @@ def corpus_source() -> str:
     return "\n".join(lines)
 
 
+def rule_generated_exceptions(rep: Report, repo: Repo):
+    """The generated evals run inside BlockSeries.__getitem__, which relies on an exception of the element computation reaching it (it then
+    removes the in-flight marker and re-raises).  A `try` in generated code must therefore re-raise in every handler and must not leave its
+    `finally` block with return / break / continue (that discards the exception and hands the partial `result` to the memo)."""
+    from .sem import outcomes
+    R = "E9.exceptions"
+    out = compiler_output(repo)
+    n_evals = n_try = 0
+    for pname in ("main", "nonhermitian", "doc_example"):
+        data = out.get(pname)
+        if data is None or "error" in data:
+            raise AnalysisError(R, f"program {pname}: no compiled form to inspect")
+        loc = repo.rel("algorithm_parsing") + f":(code generated for {pname})"
+        for sdat in data["series"]:
+            try:
+                g = ast.parse(sdat["src"])
+            except SyntaxError as e:
+                raise AnalysisError(R, f"{pname}::{sdat['name']}: generated code does not parse: {e}")
+            n_evals += 1
+            for t in [x for x in ast.walk(g) if isinstance(x, ast.Try)]:
+                n_try += 1
+                for h in t.handlers:
+                    outs = outcomes(h.body, None, env={}, expand=False)
+                    if not (outs and all(o.kind == "raise" for o in outs)):
+                        rep.fail(R, f"{pname}::{sdat['name']} generated eval: handler `except {norm(h.type) if h.type is not None else ''}` absorbs the exception",
+                                 "the partial `result` is returned and cached by the series", loc)
+                for s_ in t.finalbody:
+                    for x in ast.walk(s_):
+                        if isinstance(x, (ast.Return, ast.Break, ast.Continue)):
+                            rep.fail(R, f"{pname}::{sdat['name']} generated eval leaves a `finally` block with `{norm(x)[:30]}`",
+                                     "this discards an exception in flight (also KeyboardInterrupt): the caller sees no error and the series "
+                                     "caches the partial `result` (the value before the interrupted line was added)", loc)
+    rep.floor(R, "generated evals inspected", n_evals, 10)
+    rep.ok(R, "generated evals: no construct discards an exception in flight", f"{n_evals} evals, {n_try} try statements", repo.rel("algorithm_parsing"))
+
+
 def rule_translation_corpus(rep: Report, repo: Repo):
     """Compile a generated corpus of programs with the repository's compiler and compare every
     (series, index class, offdiag given, flags) case with the reference translation."""
+    GenInterp.helpers = compiler_helpers(repo)
     import tempfile
 
     R = "E9.corpus"
@@ -681,19 +894,30 @@ def _runtime_compiler_helpers(rep: Report, repo: Repo, R: str):
     rets = [n for n in ast.walk(f) if isinstance(n, ast.Return)]
     ok = False
     detail = ""
-    if len(rets) == 1:
+    understood = False
+    if len(rets) == 1 and f.args.vararg is not None and not f.args.args:
+        TERMS = f.args.vararg.arg
         c = _canon(_resolved(rets[0].value, _env_at(rets[0], f)))
         detail = norm(c)
         if isinstance(c, ast.Call) and call_name(c) == "sum":
             kw = {k.arg: norm(k.value) for k in c.keywords}
             start = kw.get("start") or (norm(c.args[1]) if len(c.args) > 1 else None)
             g = c.args[0] if c.args else None
-            if isinstance(g, (ast.GeneratorExp, ast.ListComp)) and len(g.generators) == 1:
+            if isinstance(g, (ast.GeneratorExp, ast.ListComp)) and len(g.generators) == 1 and norm(g.generators[0].iter) == TERMS:
                 gen = g.generators[0]
                 v = norm(gen.target)
                 filt = [norm(_canon(i)) for i in gen.ifs]
-                ok = start == "zero" and norm(g.elt) == v and norm(gen.iter) == "terms" and filt == [f"{v} is not zero"] \
-                    and f.args.vararg is not None and f.args.vararg.arg == "terms"
+                # understood: a sum over the arguments with at most one sentinel filter; what is summed, from where, and which
+                # arguments are left out decide the verdict
+                understood = len(filt) == 1 and filt[0] in (f"{v} is not zero", f"{v} is zero")
+                ok = start == "zero" and norm(g.elt) == v and filt == [f"{v} is not zero"]
+    if not understood:
+        # another way of writing the sum (an explicit loop): read what it computes for 0..3 arguments
+        if f.args.vararg is None or f.args.args:
+            raise AnalysisError(R, "_zero_sum: signature is not (*terms)")
+        dens = [helper_denotation(f, n_) for n_ in range(4)]
+        ok = all(d == (n_, {i: Fr(1) for i in range(n_)}) for n_, d in enumerate(dens))
+        detail = f"for 0..3 arguments computes {[{i: str(c) for i, c in d[1].items()} for d in dens]}"
     rep.check(ok, R, "algorithm_parsing::_zero_sum adds every term that is not the `zero` sentinel, starting from `zero`", detail, loc(f))
     f = repo.find("algorithm_parsing::_safe_divide", R)
     params = [a_.arg for a_ in f.args.args]
@@ -965,6 +1189,10 @@ def exec_scope_table(repo: Repo, R: str = "E9.exec_scope"):
     from .core import own_nodes
     sc = repo.find("algorithm_parsing::series_computation", R)
     ex = [n for n in own_nodes(sc) if isinstance(n, ast.Call) and call_name(n) == "exec" and len(n.args) >= 2]
+    if not ex:
+        # the exec may sit in an extracted helper: look at the function with such helpers seen through
+        sc = repo.find_expanded("algorithm_parsing::series_computation", R)
+        ex = [n for n in own_nodes(sc) if isinstance(n, ast.Call) and call_name(n) == "exec" and len(n.args) >= 2]
     if len(ex) != 1 or not isinstance(ex[0].args[1], ast.Name):
         raise AnalysisError(R, "series_computation: the exec(..., <scope name>) call was not found")
     S = ex[0].args[1].id
@@ -975,6 +1203,8 @@ def exec_scope_table(repo: Repo, R: str = "E9.exec_scope"):
         if len(asg) != 1 or depth > 3:
             raise AnalysisError(R, f"series_computation: `{name}` is not assigned exactly once")
         v = asg[0].value
+        if isinstance(v, ast.Name) and v.id != name:
+            return dict_of(v.id, depth + 1)  # an alias (e.g. the parameter of a helper that was seen through)
         if isinstance(v, ast.Call) and call_name(v) == "dict" and not v.args:
             v = ast.Dict(keys=[ast.Constant(value=k.arg) if k.arg else None for k in v.keywords], values=[k.value for k in v.keywords])
         if not isinstance(v, ast.Dict):
@@ -1152,6 +1382,23 @@ def rule_adjoint_binding(rep: Report, repo: Repo):
 # ---------------------------------------------------------------------------
 
 
+def series_geometry_locals(sc: ast.FunctionDef, rule: str):
+    """The locals of series_computation that hold the common block shape and the number of perturbation parameters, by role:
+    the names handed on as `shape=` / `n_infinite=` to the series the function constructs."""
+    found = set()
+    for n in ast.walk(sc):
+        kw = {}
+        if isinstance(n, ast.Call):
+            kw = {k.arg: k.value for k in n.keywords if k.arg}
+        elif isinstance(n, ast.Dict):
+            kw = {k.value: v for k, v in zip(n.keys, n.values) if isinstance(k, ast.Constant) and isinstance(k.value, str)}
+        if "shape" in kw and "n_infinite" in kw and isinstance(kw["shape"], ast.Name) and isinstance(kw["n_infinite"], ast.Name):
+            found.add((kw["shape"].id, kw["n_infinite"].id))
+    if len(found) != 1:
+        raise AnalysisError(rule, f"series_computation: locals handed on as shape= / n_infinite= not found uniquely ({sorted(found)})")
+    return next(iter(found))
+
+
 def rule_start_data(rep: Report, repo: Repo, all_programs: bool = True):
     """`start = 0` pins `zero` on EVERY block at order zero, `start = 1` pins `one` on the diagonal blocks, `start = "A"` pins
     the zeroth order of input A on EVERY block (also where that element is the `zero` sentinel: an unpinned block would be
@@ -1160,14 +1407,15 @@ def rule_start_data(rep: Report, repo: Repo, all_programs: bool = True):
     from .resolve import clone, env_at, resolved
     from .sem import Scope, canon, inline
     R = "E9.start_data"
-    sc = repo.find("algorithm_parsing::series_computation", R)
     loc = lambda n: repo.loc("algorithm_parsing", n)
     tab, named, dyn_entries = data_table(repo)
-    env = env_at(tab, sc, opaque=("n_infinite", "shape"))
+    sc = data_table.host  # series_computation, with extracted helpers seen through when the table lives in one
+    SHAPE, NINF = series_geometry_locals(sc, R)
+    env = env_at(tab, sc, opaque=(NINF, SHAPE))
     scope = Scope(repo.trees["algorithm_parsing"], tab)
-    ALL = ("[(_v0, _v1) for _v0 in range(shape[0]) for _v1 in range(shape[1])]",)
-    DIAG = ("[(_v0, _v0) for _v0 in range(shape[0])]",)
-    ZO = "(0,) * n_infinite"
+    ALL = (f"[(_v0, _v1) for _v0 in range({SHAPE}[0]) for _v1 in range({SHAPE}[1])]",)
+    DIAG = (f"[(_v0, _v0) for _v0 in range({SHAPE}[0])]",)
+    ZO = f"(0,) * {NINF}"
 
     def pins(e, what):
         """{block + zeroth_order: VALUE for block in BLOCKS} without a filter -> (blocks text, value text with the key as K) or None"""
